@@ -92,24 +92,22 @@ def make_triangle_mesh(points, size_u, size_v, **kwargs):
 
     # Variable initialization
     domain = kwargs.get('domain', ((0.0, 1.0), (0.0, 1.0)))  # parametric domain of the surface
-    u_jump = (float(domain[0][1] - domain[0][0]) / float(size_u - 1)) * vertex_spacing  # for computing vertex parametric u value
-    v_jump = (float(domain[1][1] - domain[1][0]) / float(size_v - 1)) * vertex_spacing  # for computing vertex parametric v value
+    # The parametric positions of the vertices are the parameters which the input points were evaluated at; accumulating
+    # the step size would end one round-off error before or after the end of the domain
+    params_u = linalg.linspace(domain[0][0], domain[0][1], size_u)
+    params_v = linalg.linspace(domain[1][0], domain[1][1], size_v)
     varr_size_u = len(range(0, size_u, vertex_spacing))  # vertex array size on the u-direction
     varr_size_v = len(range(0, size_v, vertex_spacing))  # vertex array size on the v-direction
 
     # Generate vertices directly from input points (preliminary evaluation)
     vertices = [Vertex() for _ in range(varr_size_v * varr_size_u)]
-    u = float(domain[0][0])
     for i in range(0, size_u, vertex_spacing):
-        v = float(domain[1][0])
         for j in range(0, size_v, vertex_spacing):
             idx = j + (i * size_v)
             vertices[vrt_idx].id = vrt_idx
             vertices[vrt_idx].data = points[idx]
-            vertices[vrt_idx].uv = [u, v]
+            vertices[vrt_idx].uv = [params_u[i], params_v[j]]
             vrt_idx += 1
-            v += v_jump
-        u += u_jump
 
     #
     # Organization of vertices in a quad element on the parametric space:
@@ -199,15 +197,14 @@ def make_quad_mesh(points, size_u, size_v, **kwargs):
 
     # Variable initialization
     domain = kwargs.get('domain', ((0.0, 1.0), (0.0, 1.0)))  # parametric domain of the surface
-    u_jump = float(domain[0][1] - domain[0][0]) / float(size_u - 1)  # for computing vertex parametric u value
-    v_jump = float(domain[1][1] - domain[1][0]) / float(size_v - 1)  # for computing vertex parametric v value
+    params_u = linalg.linspace(domain[0][0], domain[0][1], size_u)  # vertex parametric u values
+    params_v = linalg.linspace(domain[1][0], domain[1][1], size_v)  # vertex parametric v values
 
     # Generate vertices
     vertices = []
     for pt in points:
         vrt = Vertex(*pt, id=vertex_idx)
-        vrt.uv = [float(domain[0][0]) + (u_jump * (vertex_idx // size_v)),
-                  float(domain[1][0]) + (v_jump * (vertex_idx % size_v))]
+        vrt.uv = [params_u[vertex_idx // size_v], params_v[vertex_idx % size_v]]
         vertices.append(vrt)
         vertex_idx += 1
 
